@@ -39,6 +39,7 @@ def run(rep: Report, tier: str) -> None:
 	rule_c(rep, idx, nm)
 	rule_d(rep, idx, nm)
 	rule_e(rep, idx, nm)
+	rule_f(rep, idx, nm)
 
 
 # ---- (a) list-ness ------------------------------------------------------------------------------------------------------
@@ -117,9 +118,6 @@ class Kinds:
 					return 'list'
 				if fn.attr in SINGLE_CALLS:
 					return 'single'
-				# method with a return annotation
-				for callee in self.typer.callees(f, e, widen=False):
-					return 'list' if declared_list(callee) else 'single'
 				if fn.attr == 'get' and len(e.args) == 2 and '_memo' in unparse(fn.value):
 					# self._memo.get(key, factory): kind of the factory's returns
 					fac = e.args[1]
@@ -130,6 +128,10 @@ class Kinds:
 							return ks.pop() if len(ks) == 1 else None
 					if isinstance(fac, ast.Lambda):
 						return self.of(fac.body, f, cls, depth + 1)
+					return None
+				# method with a return annotation
+				for callee in self.typer.callees(f, e, widen=False):
+					return 'list' if declared_list(callee) else 'single'
 				return None
 		if isinstance(e, ast.Attribute):
 			# super().p / self.p / self.a.b
@@ -441,3 +443,82 @@ def rule_e(rep: Report, idx: SourceIndex, nm: NodeModel) -> None:
 					r.ok(key, c.where, message='a filtered child list can be non-empty for this production (weak: emptiness for ill-formed operands not excluded)')
 				else:
 					r.undecided(key, c.where, f'cannot decide emptiness of {[f.name for f in fs]} for production {prod}')
+
+
+# ---- (f) lists obtained from node properties are not mutated in place -------------------------------------------------------------
+
+MUTATORS = {'pop', 'append', 'extend', 'insert', 'remove', 'clear', 'sort', 'reverse'}
+
+
+def _fresh(e: ast.AST | None) -> bool:
+	"""the expression builds a new list on every evaluation"""
+	if isinstance(e, (ast.List, ast.ListComp)):
+		return True
+	if isinstance(e, ast.Call) and isinstance(e.func, ast.Name) and e.func.id in ('list', 'sorted'):
+		return True
+	if isinstance(e, ast.BinOp) and isinstance(e.op, ast.Add):
+		return _fresh(e.left) or _fresh(e.right)
+	if isinstance(e, ast.IfExp):
+		return _fresh(e.body) and _fresh(e.orelse)
+	if isinstance(e, ast.Subscript) and isinstance(e.slice, ast.Slice):
+		return True
+	return False
+
+
+def rule_f(rep: Report, idx: SourceIndex, nm: NodeModel) -> None:
+	r = rep.rule('C09/node-lists-not-mutated', 'a list obtained from a node property is mutated in place only if every definition of that property builds a fresh list on each call (properties are re-read by Procedure: a shared list that shrinks between flattening and popping misaligns the event)', floor=1)
+	list_props: dict[str, list[FuncInfo]] = {}
+	for c in nm.classes + [nm.node_cls]:
+		for name, defs in c.methods.items():
+			for f in defs:
+				if f.is_property and declared_list(f):
+					list_props.setdefault(name, []).append(f)
+	n_sites = 0
+	for rel in idx.all_py(('rogw',)):
+		if rel.startswith(('rogw/tranp/test/', 'rogw/tranp/compatible/', 'rogw/tranp/bin/analyze', 'rogw/tranp/bin/ast_check', 'rogw/tranp/bin/gram_check', 'rogw/tranp/bin/j2_check')):
+			continue
+		m = idx.mod(rel)
+		for q, f in m.functions.items():
+			if '#' in q:
+				continue
+			# locals bound (once) to `<expr>.<list property>`
+			bound: dict[str, tuple[str, ast.AST]] = {}
+			counts: dict[str, int] = {}
+			for n in walk_no_nested(f.node):
+				if isinstance(n, ast.Assign) and len(n.targets) == 1 and isinstance(n.targets[0], ast.Name):
+					counts[n.targets[0].id] = counts.get(n.targets[0].id, 0) + 1
+					v = n.value
+					if isinstance(v, ast.Attribute) and v.attr in list_props:
+						bound[n.targets[0].id] = (v.attr, v)
+			for n in walk_no_nested(f.node):
+				target = None
+				if isinstance(n, ast.Call) and isinstance(n.func, ast.Attribute) and n.func.attr in MUTATORS and isinstance(n.func.value, ast.Name):
+					target = n.func.value.id
+				elif isinstance(n, ast.Delete):
+					for t in n.targets:
+						if isinstance(t, ast.Subscript) and isinstance(t.value, ast.Name):
+							target = t.value.id
+				elif isinstance(n, (ast.Assign, ast.AugAssign)):
+					for t in (n.targets if isinstance(n, ast.Assign) else [n.target]):
+						if isinstance(t, ast.Subscript) and isinstance(t.value, ast.Name):
+							target = t.value.id
+				# direct: node.prop.pop()
+				direct = None
+				if isinstance(n, ast.Call) and isinstance(n.func, ast.Attribute) and n.func.attr in MUTATORS and isinstance(n.func.value, ast.Attribute) and n.func.value.attr in list_props:
+					direct = n.func.value.attr
+				prop = direct or (bound[target][0] if target in bound and counts.get(target) == 1 else None)
+				if prop is None:
+					continue
+				n_sites += 1
+				rep.consulted(rel)
+				stale = []
+				for g in list_props[prop]:
+					rets = [x.value for x in walk_no_nested(g.node) if isinstance(x, ast.Return)]
+					if not rets or not all(_fresh(x) for x in rets):
+						stale.append(f'{g.cls.name}.{prop} returns `{unparse(rets[0])[:60] if rets else "?"}`')
+				key = f'{rel}:{q}:{unparse(n)[:50]}'
+				r.check(not stale, key, (rel, n.lineno), f'`{unparse(n)[:70]}` mutates in place the list read from node property `{prop}`, but {stale[:2]} hand out a shared (cached / underlying) list: the node\'s own property shrinks, so Procedure pops a different count than the walker flattened', unparse(n)[:100])
+	if n_sites == 0:
+		r.ok('no-mutation-sites', None, message='no in-place mutation of a node-property list found')
+	rep.extra_coverage['node_list_properties'] = len(list_props)
+	rep.extra_coverage['node_list_mutation_sites'] = n_sites
